@@ -480,12 +480,48 @@ class SchemaGen(object):
         # rule-break operators do (same response name, different shapes on types that exclude each other)
         if len(objs) >= 2 and rng.random() < 0.4:
             a, b = rng.sample(objs, 2)
+            # preferably two possible types of one abstract type (side stream)
+            together = []
+            for u in unions:
+                ms = [o for o in objs if o.name in u.members]
+                together += [(x, y) for i_, x in enumerate(ms) for y in ms[i_ + 1:]]
+            for i in ifaces:
+                ms = [o for o in objs if i.name in o.interfaces]
+                together += [(x, y) for i_, x in enumerate(ms) for y in ms[i_ + 1:]]
+            side = random.Random("homonym:%s:%d" % (a.name, len(together)))
+            if together and side.random() < 0.75:
+                a, b = side.choice(together)
             name = self.fresh("homonym")
             ta, tb = rng.sample(["Int", "String", "Boolean", "Float"], 2)
             for o, tn in ((a, ta), (b, tb)):
                 f = SField(name, named(tn))
                 f.homonym = True
                 o.fields.append(f)
+        # nested homonyms: two possible types of one abstract type carry an object field of the same name whose
+        # types differ, and those two types carry a leaf of the same name with different types; identically
+        # spelled selections `box { val }` below the two then have different shapes (side stream)
+        together = []
+        for u in unions:
+            ms = [o for o in objs if o.name in u.members]
+            together += [(x, y) for i_, x in enumerate(ms) for y in ms[i_ + 1:]]
+        for i in ifaces:
+            ms = [o for o in objs if i.name in o.interfaces]
+            together += [(x, y) for i_, x in enumerate(ms) for y in ms[i_ + 1:]]
+        side = random.Random("nested-homonym:%d:%d" % (len(objs), len(together)))
+        if together and side.random() < 0.3 and self.features.get("nested_homonyms", True):
+            a, b = side.choice(together)
+            box, val = self.fresh("homonymBox"), self.fresh("homonymVal")
+            ta, tb = side.sample(["Int", "String", "Boolean", "Float"], 2)
+            for o, tn in ((a, ta), (b, tb)):
+                inner = s.add(SType("object", self.fresh("Boxed"), None))
+                leaf = SField(val, named(tn))
+                leaf.homonym = True
+                inner.fields.append(leaf)
+                inner.fields.append(SField(self.fresh("boxedOther"), named("Int")))
+                f = SField(box, named(inner.name))
+                f.homonym = True
+                o.fields.append(f)
+                objs.append(inner)
         # every interface needs at least one implementation to be useful; add one if none
         for i in ifaces:
             if not s.possible_types(i.name):
